@@ -6,6 +6,7 @@ import Autog.Lemmas.ComponentsDfs
 import Autog.Lemmas.HasCyclesTotal
 import Autog.Lemmas.LongestPathTotal
 import Autog.Lemmas.DfsBreakerTotal
+import Autog.Lemmas.ComponentsTotal
 /-! # C01 — Layout always returns
 
     PARTIAL. In the composed model `layoutModel` (Autog/Model/Pipeline.lean) every explicit `panic` of the modelled code, every
@@ -20,6 +21,11 @@ import Autog.Lemmas.DfsBreakerTotal
       state whose out-lists point into the node store (`EdgesWF`, a decidable contract evaluated on every traced run as `K:edgesWF`):
       with a weight of out-degree + 2 per node that is neither finished nor on the stack and todo + 1 per frame, every step of the
       machine lowers the measure (`run_no_fuelOut`), which starts below the model's budget 2·E + 2·V + 4;
+    * `C01_preprocess_total`: EVERYTHING before phase 1 (id interning, size options, the split into connected components by the
+      edge-marking DFS, self-loop stripping) returns on the model for every non-empty edge list, with no well-formedness hypothesis:
+      the graph `Populate` builds has incidence lists inside the edge store (`populate_incWF`), and the component walk, which recurses
+      once per marked EDGE, lowers a measure of (todo + 1) per frame plus 2·E + 1 per unmarked edge at every step
+      (`C01_component_walk_never_out_of_fuel`), starting below the model's budget (E + 2)(2E + 2) + 2;
     * on the machines the models run: the cycle test is complete (`C01_hasCycles_complete`), the greedy breaker ranks every node
       exactly once for every pick oracle (`C01_greedy_assigns_every_node_once`), Kahn initialisation processes every node of a DAG
       (`C01_ns_init_processes_every_node`), the component DFS closes (`C01_components_closed_connected`).
@@ -80,6 +86,15 @@ theorem C01_layers_total (g : G) (h : ∀ n ∈ g.nodeIds, 0 ≤ g.layerOf n) : 
     have := h n hn
     simp; omega
   simp [this, bind, Except.bind, pure, Except.pure]
+
+/-- everything before phase 1 returns, for every non-empty edge list -/
+theorem C01_preprocess_total : type_of% @preProcess_total := @preProcess_total
+theorem C01_components_total : type_of% @components_total := @components_total
+theorem C01_populate_incWF : type_of% @populate_incWF := @populate_incWF
+theorem C01_component_walk_never_out_of_fuel : type_of% @ComponentsDfs.run_some := @ComponentsDfs.run_some
+
+example : ∃ cs, preProcess {} [("a", "b"), ("b", "a"), ("c", "c"), ("a", "b")] = .ok cs :=
+  preProcess_total {} _ (by decide)
 
 theorem C01_cycle_test_total : type_of% @hasCycles_total := @hasCycles_total
 /-- the longest-path traversal returns on every well-formed acyclic state -/
